@@ -390,7 +390,14 @@ def shapes_for(tier):
     return constructs(depth, 'full')
 
 
+def _share_layout(chk):
+    from .c10 import check_layout_sim
+    chk.rule('C10.L', 'shared with C10: well-formed programs (incl. string literals / comments containing U+2028, form feed, U+0085 and non-ASCII names) parse to the same model in every layout (E6p)')
+    chk.guard('C10.L', check_layout_sim, chk)
+
+
 def run(chk):
+    _share_layout(chk)
     chk.rule('C01.flow', 'bisimulation of the lowered statement list with the structured reading + for-loop data rules, per shape and scope', floor=300)
     chk.rule('C01.W', 'while: body only after a true test; condition re-tested before every iteration and after continue; break/false leave the loop')
     chk.rule('C01.I', 'if chain: conditions tested in order; exactly the first true branch runs; else iff all false')
